@@ -37,7 +37,7 @@ def main():
     rc, o = sh('git apply %s' % patch, wt)
     if rc != 0:
         print('patch does not apply:', o); return 2
-    env2 = dict(os.environ, VERIF_REPO=wt)
+    env2 = dict(os.environ, VERIF_REPO=wt, VERIF_EVIDENCE_DIR='/tmp/seed/evidence')
     try:
         for p in props:
             rc, o = sh('./vcheck run %s' % p, '/verif', env2)
